@@ -29,6 +29,10 @@ def main():
             if os.path.exists(os.path.join(d, part)):
                 key = sid + "/" + part
                 items.append((key, os.path.join(d, part), props, "caught" if key in HALVES_THAT_BREAK else "quiet"))
+    # behaviour-preserving refactorings written by independent agents (refactors/<id>/patch.diff): every check must stay quiet
+    for d in sorted(glob.glob(os.path.join(VERIF, "refactors", "*"))):
+        if os.path.exists(os.path.join(d, "patch.diff")):
+            items.append(("refactors/" + os.path.basename(d), os.path.join(d, "patch.diff"), ["C16", "C06", "C13", "C17"], "quiet"))
     if only: items = [i for i in items if any(i[0].startswith(o) or os.path.basename(i[0]).startswith(o) for o in only)]
     out_path = os.path.join(VERIF, "sensitivity_results.json")
     results = json.load(open(out_path)) if os.path.exists(out_path) and only else {}
